@@ -236,6 +236,10 @@ def c03_2(ctx: Ctx) -> RuleResult:
             ct = X.at(m, call_)
             rk = dict(dict(ct[3]).get("realizations", ("call", None, (), ()))[3]) if dict(ct[3]).get("realizations", ("x",))[0] == "call" else {}
             F = rk.get("failed_realizations")
+            if F is not None:
+                # the flags may come out of a private helper together with the gated value (`failed, functions = self._gate(...)`);
+                # helpers are looked into to the same depth as for the gated values below
+                F = X.force_inline(F, m, effects=True) if F[0] == "item" else X.force_inline(F, m)
             for name in ("functions", "gradients"):
                 if name not in kwn:
                     continue
@@ -250,7 +254,8 @@ def c03_2(ctx: Ctx) -> RuleResult:
                     """polarity of `successes < threshold` among the conditions, None when absent"""
                     for a, p in conds:
                         a, p = strict_lt(a, p)
-                        if a[0] == "cmp" and a[1] == "<" and _is_threshold(ctx, m, a[3], which) and F is not None and _is_success_count(a[2], F):
+                        if a[0] == "cmp" and a[1] == "<" and _is_threshold(ctx, m, a[3], which) and F is not None and (
+                                _is_success_count(a[2], F) or _is_success_count(X.force_inline(a[2], m), F)):
                             return p
                     return None
 
@@ -385,12 +390,35 @@ def c03_5(ctx: Ctx) -> RuleResult:
             r, gr = kw.get("realizations"), kw.get("gradients")
             if r is None or gr is None or r[0] != "call":
                 continue
+            if gr[0] == "item":
+                # `failed, gradients = self._gate(...)`: the value computed inside the private helper
+                gr = X.force_inline(gr, m, effects=True)
             used = [a for _c, a in guard_leaves(gr, strip_wrappers=False) if a[0] == "call"]
             if not used:
                 continue
             n += 1
             uargs = list(used[0][2]) + [v_ for _k, v_ in used[0][3]]
             rk = dict(r[3])
+            for k_ in list(rk):
+                if rk[k_][0] == "item":
+                    rk[k_] = X.force_inline(rk[k_], m, effects=True)
+            uargs = uargs + [X.force_inline(a_, m, effects=True) for a_ in uargs if a_[0] == "item"]
+            uargs = uargs + [norm(a_) for a_ in uargs]
+            rk = {k_: (v_ if v_ in uargs else norm(v_)) for k_, v_ in rk.items()}
+            if r[1] == ("global", "dataclasses.replace") and r[2]:
+                # `replace(<realizations of the function result>, failed_realizations=...)`: unnamed fields keep the base's value
+                base_ = r[2][0]
+                # `<constructed result>.realizations`: the field of a dataclass object built in this function is the keyword it was given
+                while base_[0] == "attr" and base_[1][0] == "call" and base_[1][1][0] == "global" and base_[1][1][1] in ctx.repo.classes and base_[2] in dict(base_[1][3]):
+                    base_ = dict(base_[1][3])[base_[2]]
+
+                def field_of(b_, name_):
+                    for a_ in (b_[1] if b_[0] == "phi" else [b_]):
+                        if a_[0] == "call" and a_[1][0] == "global" and a_[1][1].endswith(".Realizations") and name_ in dict(a_[3]):
+                            return dict(a_[3])[name_]
+                    return ("attr", b_, name_)
+
+                rk = {name_: field_of(base_, name_) for name_ in ("failed_realizations", "objective_weights", "constraint_weights")} | rk
             for name in ("failed_realizations", "objective_weights", "constraint_weights"):
                 ok = name in rk and rk[name] in uargs
                 res.add(m, call_, f"GradientResults: Realizations.{name} is the value the gradients were computed with", ok,
